@@ -140,7 +140,9 @@ MC_CONSTANTS = '''SPECIFICATION Spec
 CONSTANTS
   Models <- MCModels
   InputSets <- MCInputSets
-  Pids = {"p1"}
+  Pids = {%(pids)s}
+  TopPids = {%(tops)s}
+  StartAny = %(startany)s
   MaxActions = %(budget)d
   ActionKinds = {%(kinds)s}
   ErrCodes = {"e1", "e2"}
@@ -176,10 +178,16 @@ CORE = {
     # sound is that nothing exists in memory only at a quiescent point (C11_Image with evictions enabled)
     'C12': (['C11_Image', 'C01_QuiescentOK'], []),
     'C17': (['C17_Retention', 'C17_Refused', 'C03_Events'], []),
+    'C15': (['C15_StaysOpen', 'C15_NoAutoComplete', 'C15_AtMostOnce', 'C15_Returned', 'C15_ChildInputs',
+             'C15_ParentLast', 'C01_QuiescentOK', 'C05_NoDupSuccessor'], ['C15_ReturnMatches']),
+    'C13': (['C01_QuiescentOK', 'C03_Events', 'C04_Outcome', 'C08_AtMostOne'], ['C13_OnlyOwn', 'C13_DupRefused']),
 }
 
 # which trace group a property's conformance leg uses (default: core)
-GROUP = {'C19': 'clock', 'C11': 'store', 'C12': 'store', 'C17': 'store'}
+GROUP = {'C19': 'clock', 'C11': 'store', 'C12': 'store', 'C17': 'store', 'C13': 'multi', 'C15': 'multi'}
+
+# retention, admission and the quiescence rule also hold for child processes and side-by-side processes
+ALSO = {'C17': ['multi'], 'C01': ['multi'], 'C05': ['multi'], 'C03': ['multi']}
 
 TIERS = {
     # mc: list of (family, client action budget); rand: list of (family, runs, shards)
@@ -193,6 +201,15 @@ TIERS = {
                              rand_budget=3, rand_pact=0.3, nat_runs=0),
                   clock=dict(explore=[('timedsmall', 0, 4, 2)], rand=[('timed+timedunits', 1200, 3)], rand_budget=2,
                              rand_pact=0.2, nat_runs=0),
+                  # (family, budget, Keep, Pids, TopPids, StartAny)
+                  mc_multi=[('subflow', 2, 'TRUE', 'p1,c1,d1,g1', 'p1', 'FALSE'), ('subflow', 1, 'FALSE', 'p1,c1,d1,g1', 'p1', 'FALSE'),
+                            ('multi', 1, 'TRUE', 'p1,p2', 'p1,p2', 'TRUE')],
+                  # multi: (family, runs, shards, flags) of the multi-process driver
+                  multi=dict(multi=[('subflow', 400, 2, ['--budget', '2']), ('subflow', 300, 1, ['--budget', '2', '--nokeep']),
+                                    ('multi', 300, 2, ['--tops', '3', '--dups', '--budget', '2']),
+                                    ('multi', 150, 1, ['--tops', '3', '--budget', '1', '--cap', '1']),
+                                    ('multi', 1500, 3, ['--natural'])],
+                             rand=[], explore=[], rand_budget=0, rand_pact=0, nat_runs=0),
                   explore=[('handseq', 2, 10, 2)],      # (family, client budget, processes, files per process)
                   rand=[('hand', 600, 2), ('core6', 1800, 4)], rand_budget=4, rand_pact=0.35,
                   nat_family='hand+core6', nat_runs=1000, nat_shards=2),
@@ -206,6 +223,14 @@ TIERS = {
                                 rand_budget=4, rand_pact=0.3, nat_runs=0),
                      clock=dict(explore=[('timed', 2, 12, 4), ('timedunits', 1, 4, 1)],
                                 rand=[('timed+timedunits', 20000, 6)], rand_budget=4, rand_pact=0.25, nat_runs=0),
+                     mc_multi=[('subflow', 3, 'TRUE', 'p1,c1,d1,g1', 'p1', 'FALSE'), ('subflow', 2, 'FALSE', 'p1,c1,d1,g1', 'p1', 'FALSE'),
+                               ('multi', 2, 'TRUE', 'p1,p2', 'p1,p2', 'TRUE'), ('multi', 0, 'TRUE', 'p1,p2,p3', 'p1,p2,p3', 'TRUE')],
+                     multi=dict(multi=[('subflow', 6000, 4, ['--budget', '3']), ('subflow', 4000, 3, ['--budget', '2', '--nokeep']),
+                                       ('multi', 4000, 4, ['--tops', '3', '--dups', '--budget', '3']),
+                                       ('multi', 2000, 2, ['--tops', '3', '--budget', '2', '--cap', '1']),
+                                       ('multi', 2000, 2, ['--tops', '3', '--budget', '2', '--cap', '2', '--nokeep']),
+                                       ('multi', 30000, 8, ['--natural'])],
+                                rand=[], explore=[], rand_budget=0, rand_pact=0, nat_runs=0),
                      explore=[('handseq', 3, 14, 4), ('hand', 1, 14, 4), ('core6', 1, 8, 2)],
                      rand=[('hand', 12000, 4), ('core7+branchy', 40000, 10)], rand_budget=5,
                      rand_pact=0.35, nat_family='hand+core7', nat_runs=20000, nat_shards=4),
@@ -217,13 +242,14 @@ def mc_check(prop, tier):
     t = TIERS[tier]
     runs = []
     g = GROUP.get(prop)
-    plan = t['mc_clock'] if g == 'clock' else t['mc_store'] if g == 'store' else t['mc']
+    plan = t['mc_clock'] if g == 'clock' else t['mc_store'] if g == 'store' else t['mc_multi'] if g == 'multi' else t['mc']
     for i, item in enumerate(plan):
         famname, budget = item[0], item[1]
         keep = item[2] if len(item) > 2 else 'TRUE'
         if prop == 'C11' and keep == 'FALSE':
             continue
-        r = mc_one(prop, tier, famname, budget, i, keep, 'TRUE' if prop == 'C12' else 'FALSE')
+        r = mc_one(prop, tier, famname, budget, i, keep, 'TRUE' if prop == 'C12' else 'FALSE',
+                   pids=item[3:6] if len(item) > 5 else None)
         runs.append(r)
         if r['violated']:
             break
@@ -236,7 +262,7 @@ def mc_check(prop, tier):
                            states=r['states'], transitions=r['transitions'], wall=round(r['wall'], 1)) for r in runs])
 
 
-def mc_one(prop, tier, famname, budget, idx, keep='TRUE', evict='FALSE'):
+def mc_one(prop, tier, famname, budget, idx, keep='TRUE', evict='FALSE', pids=None):
     invs, props = CORE[prop]
     t = TIERS[tier]
     fam = family(famname)
@@ -245,7 +271,11 @@ def mc_one(prop, tier, famname, budget, idx, keep='TRUE', evict='FALSE'):
         c = json.loads(ln).get('clock') or {}
         adv |= set(c.get('adv', []))
         grid |= set(c.get('grid', []))
-    cfg = MC_CONSTANTS % dict(budget=budget, kinds=', '.join('"%s"' % k for k in ALL_KINDS),
+    q = lambda names: ', '.join('"%s"' % x for x in names.split(','))
+    kinds = ALL_KINDS if pids is None else ['complete', 'skip', 'error', 'abort']
+    cfg = MC_CONSTANTS % dict(budget=budget, kinds=', '.join('"%s"' % k for k in kinds),
+                              pids=q(pids[0]) if pids else '"p1"', tops=q(pids[1]) if pids else '"p1"',
+                              startany=pids[2] if pids else 'FALSE',
                               adv=', '.join(str(x) for x in sorted(adv)), maxtime=max(grid),
                               grid=', '.join(str(x) for x in sorted(grid)), keep=keep, evict=evict)
     cfg += ''.join('INVARIANT %s\n' % i for i in invs) + ''.join('PROPERTY %s\n' % p for p in props)
@@ -273,7 +303,9 @@ TRACE_CFG = '''SPECIFICATION %(spec)s
 CONSTANTS
   Models <- TraceModels
   InputSets <- TraceInputSets
-  Pids = {"p1"}
+  Pids = {"p1", "p2", "p3", "p4", "p5", "p6", "p7", "p8", "p9", "p10", "p11", "p12", "p13", "p14", "p15", "p16", "c1", "d1", "g1"}
+  TopPids = {"p1"}
+  StartAny = FALSE
   MaxActions = 100000
   ActionKinds = {"complete"}
   ErrCodes = {"e1", "e2"}
@@ -306,7 +338,10 @@ def strict_validate(path, tag):
     lines = open(path).read().split('\n')
     if lines and lines[-1] == '':
         lines.pop()
-    scen = [i for i, ln in enumerate(lines) if '"ev":"model"' in ln]
+    # a scenario starts at its model line, or at the first of the submodel lines before it
+    hdr = [('"ev":"model"' in ln[:200] or '"ev":"submodel"' in ln[:200]) for ln in lines]
+    sub = ['"ev":"submodel"' in ln[:200] for ln in lines]
+    scen = [i for i in range(len(lines)) if hdr[i] and not (i > 0 and sub[i - 1])]
     drift = []
     start = 0          # index into scen of the first scenario of the current attempt
     cur = path
@@ -412,6 +447,17 @@ def record_traces(tier, seed, key, group='core'):
                          [HARNESS, 'explore', '--models', fam, '--out', out, '--budget', str(budget),
                           '--kinds', ','.join(ALL_KINDS), '--shard', str(i), '--shards', str(shards),
                           '--split', str(split), '--max-runs', '200000', '--workdir', d + '/run'] + flags))
+    # 2c. several processes in one engine, sub-workflow calls (C13, C15)
+    for j, item in enumerate(t.get('multi', [])):
+        famname, runs, shards, flags = item
+        tagx = ''.join(f.replace('--', '-') for f in flags if f.startswith('--'))
+        fam = family(famname)
+        per = (runs + shards - 1) // shards
+        for i in range(shards):
+            out = '%s/multi%d%s-%02d.ndjson' % (d, j, tagx, i)
+            jobs.append((out, [HARNESS, 'multi', '--models', fam, '--out', out, '--runs', str(per),
+                               '--seed', str(seed * 1000 + 700 + 10 * j + i), '--offset', str(i * per),
+                               '--kinds', 'complete,error,abort,skip', '--workdir', d + '/run'] + flags))
     fam = family(t['nat_family'] or 'hand')
     nmodels = count_lines(fam)
 
@@ -458,7 +504,7 @@ def ensure_traces(tier, seed, group='core'):
 
     def validate(f):
         tag = 'tr-' + os.path.basename(f).replace('.ndjson', '').replace('.', '_')
-        if os.path.basename(f).startswith('nat-'):
+        if os.path.basename(f).startswith('nat-') or '-natural' in os.path.basename(f):
             # natural runs record one step per quiescent point: nothing for STRICT to match
             n = count_lines(f)
             sc = sum(1 for ln in open(f) if '"ev":"model"' in ln)
@@ -478,18 +524,25 @@ def ensure_traces(tier, seed, group='core'):
 
 
 def scenario_lines(path, k):
-    """the k-th scenario (1-based, as OBSERVE counts) of a trace file"""
-    out = []
-    n = 0
+    """the scenario whose model (or submodel) line is the k-th such line of a trace file (1-based, as
+    OBSERVE counts); submodel lines belong to the scenario of the model line that follows them"""
+    scen, cur, n, hit = [], [], 0, False
+    prev_sub = False
     with open(path) as fh:
         for line in fh:
-            if '"ev":"model"' in line:
+            is_sub = '"ev":"submodel"' in line[:200]
+            is_model = '"ev":"model"' in line[:200]
+            if (is_sub or is_model) and not prev_sub:
+                if hit:
+                    return cur
+                cur = []
+            if is_sub or is_model:
                 n += 1
-            if n == k:
-                out.append(line)
-            elif n > k:
-                break
-    return out
+                if n == k:
+                    hit = True
+            cur.append(line)
+            prev_sub = is_sub
+    return cur if hit else []
 
 
 # --------------------------------------------------------------------------------------------
@@ -550,6 +603,10 @@ def check_core(prop, tier, seed):
 
     # legs 2+3: the implementation
     tr = ensure_traces(tier, seed, GROUP.get(prop, 'core'))
+    # ... and the traces of further groups in which the property is at stake as well
+    for g2 in ALSO.get(prop, []):
+        tr2 = ensure_traces(tier, seed, g2)
+        tr = dict(tr, files=tr['files'] + tr2['files'], wall=tr['wall'] + tr2['wall'])
     n_nat = sum(f['strict']['scenarios'] for f in tr['files'] if f['strict'].get('natural'))
     n_scen = sum(f['strict']['scenarios'] for f in tr['files'])
     n_lines = sum(f['strict']['lines'] for f in tr['files'])
